@@ -329,5 +329,17 @@ def make_run(name, keys, with_ctcs=True, big=(), bf_limit=12, check_sem=False):
                 oc = sorted(sorted(c) for c in bf[1])
                 ss = ctx.suite(name + "-sem")
                 ss.record(label, sreq, repr((ov, oc)), repr((mv, mc)), nontrivial=n >= 2)
+        # the same operation objects on the same model OBJECT before and after it is edited in place
+        g = ctx.gen
+        for i in range(25 if ctx.tier == "quick" else 300):
+            m = g.model(g.rng.randint(2, 9), n_ctcs=(g.rng.choice([0, 1, 2]) if with_ctcs else 0),
+                        kinds=("mandatory", "optional", "alternative", "or", "mutex", "card"), ctc_depth=2)
+            fm = spec.build_fm(m)
+            impl_ops(fm, keys, ops)
+            b = spec.same_shape_variant(m, g.rng)
+            spec.retarget(fm, b)
+            req = sx.dumps(tag("ops", spec.fm_sx(b)))
+            st.record("edited-in-place", req, repr(impl_ops(fm, keys, ops)),
+                      repr(model_ops(sx.loads(ctx.model.call_raw(req)), keys)), nontrivial=True)
     run.__module__ = f"suite_o.{name}"
     return run
